@@ -6,13 +6,18 @@ for f in sorted(glob.glob('/verif/seeded/*/meta.json')):
     m = json.load(open(f))
     res = m['result']
     status = 'missed at first, check strengthened, now detected' if res.startswith('MISSED') else 'detected'
+    if m.get('status') == 'neutralised':
+        status += '; NEUTRALISED since by fix 124d74c (its demonstration passes with the change applied to the repaired tree)'
+    if m.get('ported'):
+        status += '; patch re-based by hand onto 124d74c'
     rows.append(f"| {m['id']} | {m['breaks_property']} | {m['needs_to_manifest'][:230]} | {status} | {res[:420]} |")
 txt = """### 7.6 Independently written changes (seeded/<id>/: patch.diff, demo.py, NOTES.md, meta.json)
 
 Each was written by a fresh sub-agent that saw only the text of one property and a scratch worktree of /repo (nothing
 from /verif), asked for a change that still passes the 115 tests and needs something specific to manifest.  For each I
 re-ran the suite with the change, re-ran the demonstration with and without it, and ran the quick check of the
-property (tools/seed_eval.sh; tools/seeded_regress.sh re-runs all of them).  Second-round agents (w4) were told which
+property (tools/seed_eval.sh; tools/seeded_regress.sh re-runs all of them; tools/seed_demo_check.sh re-runs every
+demonstration against the current /repo - after a repair in /repo some changes stop being defects and are marked so).  Second-round agents (w4) were told which
 ideas had been tried and asked for a defect that survives a checker looking at single calls on fresh objects.
 
 | seed | property | needs to manifest | outcome | detail |
